@@ -458,6 +458,33 @@ func oneScenario(w *mon.W, c *mon.Case) {
 		close(gate)
 	case "late":
 		time.Sleep(s.ExitWait / 2)
+		// the handlers in flight are still held: with one of them the drain is in progress
+		// and the listener was closed before it began.  A client that connects now is not
+		// served — judged only if a second one, an eighth of the exit wait later, is served
+		// too (a shutdown goroutine that was merely slow to reach the listener has long got there)
+		if s.Busy > 0 && !s.RegistrySlow && !s.RegistryFails && s.Signal == "" {
+			served := 0
+			for k := 0; k < 2; k++ {
+				cn, err := net.DialTimeout("tcp", addr, 300*time.Millisecond)
+				if err != nil {
+					break
+				}
+				io.WriteString(cn, "GET /quick HTTP/1.1\r\nHost: x\r\n\r\n")
+				b := readAll(cn, s.ExitWait/8)
+				cn.Close()
+				if !bytes.Contains(b, []byte("quick")) {
+					break
+				}
+				served++
+				time.Sleep(s.ExitWait / 8)
+			}
+			w.Count("dials_while_draining", 1)
+			if served == 2 {
+				fail("accepts-while-draining", "%v and %v after Shutdown was called, with %d requests still in flight (their handlers are held by the test), two new connections were accepted and their requests served", (s.ExitWait / 2).Round(time.Millisecond), (s.ExitWait/2 + s.ExitWait/8).Round(time.Millisecond), s.Busy)
+				close(gate)
+				return
+			}
+		}
 		close(gate)
 	}
 	// late arrivals: requests sent just after Shutdown was called.  Allowed outcomes:
